@@ -157,20 +157,27 @@ class Hpm(object):
         block_size = self._determine_max_block_size()
 
         for chunk in chunks(binary, block_size):
-            try:
-                self.upload_firmware_block(block_number, chunk)
-            except CompletionCodeError as e:
-                if e.cc == CC_LONG_DURATION_CMD_IN_PROGRESS:
+            tries = retry
+            while True:
+                try:
+                    self.upload_firmware_block(block_number, chunk)
+                except CompletionCodeError as e:
+                    if e.cc == CC_LONG_DURATION_CMD_IN_PROGRESS:
 
-                    self.wait_for_long_duration_command(
-                            constants.CMDID_HPM_UPLOAD_FIRMWARE_BLOCK,
-                            timeout, interval)
-                else:
-                    raise HpmError('upload_firmware_block CC=0x%02x' % e.cc)
-            except IpmiTimeoutError:
-                retry -= 1
-                if retry == 0:
-                    raise IpmiTimeoutError()
+                        self.wait_for_long_duration_command(
+                                constants.CMDID_HPM_UPLOAD_FIRMWARE_BLOCK,
+                                timeout, interval)
+                    else:
+                        raise HpmError(
+                            'upload_firmware_block CC=0x%02x' % e.cc)
+                except IpmiTimeoutError:
+                    # no answer: send the same block with the same number
+                    # again (the target ignores a repeated block number)
+                    tries -= 1
+                    if tries <= 0:
+                        raise IpmiTimeoutError()
+                    continue
+                break
 
             block_number += 1
             block_number &= 0xff
